@@ -848,6 +848,7 @@ Proof.
     rewrite <- Hd, <- Hr in B1, B2. rewrite <- Hr in B6. rewrite <- Hd in B5.
     assert (Hya : length (eval P a x) = sdim (ran P a)) by (apply eval_len; auto).
     assert (Hyb : length (eval P b x) = sdim (ran P a)) by (rewrite Hr; apply eval_len; auto).
+    rewrite <- Hr.
     destruct (mk_lmul_sound (ran P a) (eval P b x) (derivative P a x) _ Hcx A2 A3 A4 A6 Hyb)
       as (L1 & L2 & L3 & L4 & L5).
     destruct (mk_lmul_sound (ran P a) (eval P a x) (derivative P b x) _ Hcx B2 B3 B4 B6 Hya)
@@ -891,6 +892,7 @@ Proof.
     { apply (hdiff_comp _ (sdim (dom P a)) _ (eval P a) (vscal s) x
                (eval P (derivative P a (vscal s x))) (vscal s)); [|exact A1].
       apply (blin_hdiff _ _ _ _ (blin_scale _ s) Hx). }
+    unfold mk_mulscal. rewrite A3.
     unfold sound. rewrite mk_lscal_lin, mk_lscal_wt, mk_lscal_dom, mk_lscal_ran. ssplit; auto.
     + apply (hdiff_ext_len _ _ _ _ (fun d => eval P (derivative P a (vscal s x)) (vscal s d))); [|exact Hcomp].
       intros d Hd. rewrite mk_lscal_eval. destruct A2 as (_ & _ & Hs & _). apply Hs. exact Hd.
